@@ -81,6 +81,12 @@ def check_entry(ctx: Ctx, rule: str, method: str):
                         foreign = foreign or (r, recv)
                         continue
                 shape = False
+            if foreign is None:
+                # the other object's answer post-processed (scaled, filtered, merged) before it is returned: still that object's kernel and cut
+                for c_ in walk_no_nested(f.node):
+                    if isinstance(c_, ast.Call) and isinstance(c_.func, ast.Attribute) and c_.func.attr == method and norm(c_.func.value).startswith(f"{sn}."):
+                        foreign = (c_, norm(c_.func.value))
+                        break
             if foreign is not None:
                 ctx.bad(rule, f, foreign[0], f"{f.qualname} answers with {foreign[1]}.{method}(...): the {'candidates' if method == 'valid_alignments' else 'alignment'} "
                         f"are costed with {foreign[1]}'s kernel and delta_empty, not with this dissimilarity's d_mat / delta_empty", key=f"entry:{f.qualname}")
@@ -473,6 +479,31 @@ def check_sentinel_producer(ctx: Ctx, rule: str):
             wrote = True
     ctx.check(wrote, rule, f, None, "an empty unit is written with category field -1 (the sentinel the kernel tests)",
               bad_detail="the array builder does not mark empty units with -1 in field 3", construct="None branch", key="sentinel-producer")
+    check_index_not_sentinel(ctx, rule)
+
+
+def check_index_not_sentinel(ctx: Ctx, rule: str):
+    """field 3 of a *real* unit is never the empty-unit marker: every value the label-index function can return is a position in (or one past)
+    the category set, hence >= 0.  A negative constant there makes the pair kernel take an unlabelled real unit for the empty unit and charge
+    delta_empty instead of d_mat (recognised shape, wrong slot)."""
+    if ("index-not-sentinel", rule) in ctx.notes.setdefault("records_checked", set()):
+        return
+    ctx.notes["records_checked"].add(("index-not-sentinel", rule))
+    h = ctx.model.functions.get("AbstractDissimilarity._category_index")
+    if h is None:
+        return            # the builders call <categories>.index() directly: >= 0 by construction
+    ctx.functions_analysed.add(h.qualname)
+    rets = [r for r in walk_no_nested(h.node) if isinstance(r, ast.Return) and r.value is not None]
+    neg = [r for r in rets if (A_const(r.value) is not None and A_const(r.value) < 0)]
+    other = [r for r in rets if A_const(r.value) is None and not (isinstance(r.value, ast.Call) and (dotted(r.value.func) == "len" or
+             (isinstance(r.value.func, ast.Attribute) and r.value.func.attr == "index")))]
+    if neg:
+        ctx.bad(rule, h, neg[0], f"the label index of a real unit can be {norm(neg[0].value)}: field 3 == -1 is how the pair kernel recognises the EMPTY unit, so an unlabelled "
+                f"real unit is charged delta_empty against everything instead of d_mat(u, v) (the unit-to-unit form d() still computes d)", key="index-not-sentinel")
+    elif other:
+        ctx.undecided(rule, h, other[0], f"the label index `{norm(other[0].value)}` is neither a position in the category set nor its length (not a verdict)", key="index-not-sentinel")
+    else:
+        ctx.ok(rule, h, None, "every label index is a position in the category set or its length: never the empty-unit marker -1", construct="label index >= 0", key="index-not-sentinel")
 
 
 # =============================================================================================
